@@ -21,6 +21,8 @@ pub enum Schema {
     Sender,
     Receiver,
     Shm,
+    /// a `Deserialize` impl that performs a receive on registered channel k while the enclosing value is decoded
+    RecvInside(usize),
 }
 
 pub enum Value {
@@ -46,6 +48,10 @@ pub struct Dyn(pub Value);
 
 thread_local! {
     pub static EXPECT: RefCell<Option<Schema>> = const { RefCell::new(None) };
+    /// receivers (with the schema of what they carry) used by `Schema::RecvInside`
+    pub static NESTED_RX: RefCell<Vec<Option<(ipc_channel::ipc::IpcReceiver<Dyn>, Schema)>>> = const { RefCell::new(Vec::new()) };
+    /// what the nested receives returned, in order
+    pub static NESTED_OUT: RefCell<Vec<Result<Value, String>>> = const { RefCell::new(Vec::new()) };
 }
 pub fn expect(s: &Schema) {
     EXPECT.with(|e| *e.borrow_mut() = Some(s.clone()));
@@ -209,6 +215,28 @@ impl<'de, 'a> DeserializeSeed<'de> for &'a Schema {
                 }
                 d.deserialize_enum("E", &[], V(ss))
             },
+            Schema::RecvInside(k) => {
+                let entry = NESTED_RX.with(|n| n.borrow_mut().get_mut(*k).and_then(Option::take));
+                if let Some((rx, inner)) = entry {
+                    let outer = EXPECT.with(|e| e.borrow().clone());
+                    expect(&inner);
+                    let r = rx.recv();
+                    EXPECT.with(|e| *e.borrow_mut() = outer);
+                    NESTED_OUT.with(|o| o.borrow_mut().push(r.map(|d| d.0).map_err(|e| format!("{:?}", e))));
+                }
+                // occupies no bytes of the enclosing message
+                struct V;
+                impl<'de> Visitor<'de> for V {
+                    type Value = Value;
+                    fn expecting(&self, f: &mut fmt::Formatter) -> fmt::Result {
+                        f.write_str("unit")
+                    }
+                    fn visit_seq<A: SeqAccess<'de>>(self, _a: A) -> Result<Value, A::Error> {
+                        Ok(Value::Tup(vec![]))
+                    }
+                }
+                d.deserialize_tuple(0, V)
+            },
             Schema::Sender => Ok(Value::Sender(usize::MAX, OpaqueIpcSender::deserialize(d)?)),
             Schema::Receiver => Ok(Value::Receiver(usize::MAX, RefCell::new(Some(OpaqueIpcReceiver::deserialize(d)?)))),
             Schema::Shm => {
@@ -237,6 +265,7 @@ impl Schema {
             Schema::Sender => "snd".into(),
             Schema::Receiver => "rcv".into(),
             Schema::Shm => "shm".into(),
+            Schema::RecvInside(_) => "tup 0".into(),
         }
     }
 }
@@ -393,6 +422,7 @@ pub fn gen_value(rng: &mut Rng, s: &Schema, ep: &mut dyn Endpoints, budget: &mut
             let k = rng.below(ss.len() as u64) as usize;
             Value::Var(k as u32, Box::new(gen_value(rng, &ss[k], ep, budget)))
         },
+        Schema::RecvInside(_) => Value::Tup(vec![]),
         Schema::Sender => ep.sender(),
         Schema::Receiver => ep.receiver(),
         Schema::Shm => {
